@@ -1571,3 +1571,23 @@ Proof.
   - destruct (get_long_and_visible_aliases (fst (a, ad))); [|destruct Hl]. apply in_map_iff in Hl.
     destruct Hl as (s & <- & _). unfold ZshModel.opt_long_line. apply in_or_app. right. apply in_or_app. left. exact Hx'.
 Qed.
+
+(** the local class, spelled out: clap's configuration check ([id_exists] for every entry) AND, for a global option / flag,
+    every entry names an ARGUMENT -- the second conjunct is what excludes the [expect] *)
+Theorem conflicts_local_meaning m :
+  conflicts_local m = true <->
+  forall a, In a (c_args m) -> a_is_positional a = false -> forall id, In id (a_blacklist a) ->
+    (is_some (find_arg m id) || find_group m id) = true /\ (a_global a = true -> is_some (find_arg m id) = true).
+Proof.
+  unfold conflicts_local. rewrite forallb_forall. split.
+  - intros H a Ha Hp id Hid.
+    assert (Hf : In a (filter (fun a => negb (a_is_positional a)) (c_args m))) by (apply filter_In; rewrite Hp; auto).
+    specialize (H a Hf). rewrite forallb_forall in H. specialize (H id Hid). unfold entry_ok in H.
+    destruct (is_some (find_arg m id)); [split; [reflexivity|reflexivity]|]. cbn [orb] in H. cbn [orb].
+    apply andb_true_iff in H. destruct H as [Hg Hgr]. split; [exact Hgr|].
+    intros Hglob. rewrite Hglob in Hg. discriminate.
+  - intros H a Ha. apply filter_In in Ha. destruct Ha as [Ha Hp]. apply Bool.negb_true_iff in Hp.
+    apply forallb_forall. intros id Hid. destruct (H a Ha Hp id Hid) as [H1 H2]. unfold entry_ok.
+    destruct (is_some (find_arg m id)); [reflexivity|]. cbn [orb] in *.
+    destruct (a_global a); [specialize (H2 eq_refl); discriminate|]. exact H1.
+Qed.
